@@ -279,12 +279,17 @@ Definition get_item (v k : value) : result terr value :=
 
 Definition zrange (n : Z) : list value := map (fun k => VInt (Z.of_nat k)) (seq 0 (Z.to_nat n)).
 
+(* iterating a range: ranges longer than 10000 are outside the sub-language (the model would
+   build the list in unary) *)
+Definition range_items (n : Z) : result terr (list value) :=
+  if Z.ltb 10000 n then Err EUnsupported else Ok (zrange n).
+
 Definition iter_values (p : undefined_policy) (v : value) : result terr (list value) :=
   match v with
   | VList l => Ok l
   | VStr s => Ok (map (fun c => VStr [c]) s)
   | VDict d => Ok (map (fun kv => VStr (fst kv)) d)
-  | VRange n => Ok (zrange n)
+  | VRange n => range_items n
   | VUndef => undef_forced p []
   | _ => Err ETypeErr
   end.
